@@ -479,3 +479,16 @@ package flows
 //@   ensures[proof-attached] result0 != nil ==> result0.AggchainProof != nil
 //@   ensures[fresh-proof-is-for-this-range-and-root] (result0 != nil && proofCalls == old(proofCalls) + 1) ==> proofReqRoot == result0.L1InfoTreeRootFromWhichToProve && result0.L1InfoTreeRootFromWhichToProve == l1RootHashAt((result0.L1InfoTreeLeafCount + 4294967295) % 4294967296) && result0.ToBlock == result0.AggchainProof.EndBlock && forall(k, 0, len(result0.Claims), result0.Claims[k].GlobalIndex != nil && result0.Claims[k].GlobalExitRoot == H(result0.Claims[k].MainnetExitRoot, result0.Claims[k].RollupExitRoot))
 //@   ensures[stored-proof-comes-with-its-root] (result0 != nil && proofCalls == old(proofCalls)) ==> storedLastCert != nil && storedLastCert.Status == agglayertypes.InError && storedLastCert.FinalizedL1InfoTreeRoot != nil && result0.L1InfoTreeRootFromWhichToProve == *storedLastCert.FinalizedL1InfoTreeRoot && result0.L1InfoTreeLeafCount == storedLastCert.L1InfoTreeLeafCount
+
+// start-up check of the FEP flow (C02): blocks between the last certificate and the configured start block may only
+// be skipped when they carry no bridge event (the base flow's proved gap check, asked for the start block)
+//@ interface github.com/agglayer/aggkit/aggsender/types.BridgeQuerier.WaitForSyncerToCatchUp (self, ctx, block)
+//@   modifies nothing
+//@ interface github.com/agglayer/aggkit/aggsender/types.AggsenderFlowBaser.VerifyBlockRangeGaps (f, ctx, lastSentCertificate, newFromBlock, newToBlock)
+//@   sameas github.com/agglayer/aggkit/aggsender/flows.(*baseFlow).VerifyBlockRangeGaps
+//@ func (a *AggchainProverFlow) CheckInitialStatus
+//@   props C02
+//@   requires a != nil && a.storage != nil && a.l2BridgeQuerier != nil && a.baseFlow != nil && typeIs(a.baseFlow, *baseFlow) && cast(a.baseFlow, *baseFlow) != nil && cast(a.baseFlow, *baseFlow).l2BridgeQuerier != nil
+//@   requires storedLastCert != nil ==> storedLastCert.FromBlock <= storedLastCert.ToBlock
+//@   modifies nothing
+//@   ensures[skipped-blocks-carry-no-events] (result == nil && storedLastCert != nil && storedLastCert.Status != agglayertypes.InError && storedLastCert.ToBlock + 1 < cast(a.baseFlow, *baseFlow).cfg.StartL2Block) ==> nBridgesOf(storedLastCert.ToBlock + 1, cast(a.baseFlow, *baseFlow).cfg.StartL2Block - 1) == 0 && nClaimsOf(storedLastCert.ToBlock + 1, cast(a.baseFlow, *baseFlow).cfg.StartL2Block - 1) == 0 && !cast(a.baseFlow, *baseFlow).cfg.RequireNoFEPBlockGap
